@@ -307,6 +307,7 @@ pub fn by_name(prop: &str) -> Option<Box<dyn crate::campaign::Campaign>> {
     use crate::campaign::Composite;
     use crate::components as comp;
     match prop {
+        "C10" => Some(Box::new(crate::c10::C10)),
         "C15" => Some(Box::new(Composite {
             prop: "C15",
             parts: vec![(8, Box::new(comp::C15)), (2, Box::new(SchedCampaign { prop: "C15", ..c02() }))],
